@@ -68,6 +68,8 @@ type MemConn struct {
 	blockedW   int32         // number of writers currently blocked (atomic)
 	writeCalls int
 
+	resetErr error // set by ResetByPeer: every blocked and future Write fails
+
 	closed    chan struct{}
 	closeOnce sync.Once
 	closeTick int64
@@ -138,6 +140,11 @@ func (c *MemConn) Write(p []byte) (int, error) {
 			c.mu.Unlock()
 			return 0, ErrClosed
 		default:
+		}
+		if c.resetErr != nil {
+			err := c.resetErr
+			c.mu.Unlock()
+			return 0, err
 		}
 		if c.stalled && c.credits == 0 {
 			g := c.gate
@@ -334,6 +341,19 @@ func (c *MemConn) Allow(n int) {
 func (c *MemConn) Resume() {
 	c.mu.Lock()
 	c.stalled = false
+	close(c.gate)
+	c.gate = make(chan struct{})
+	c.mu.Unlock()
+}
+
+// ResetByPeer models the peer going away for good: every blocked and
+// future Write fails with err (ECONNRESET-like).
+func (c *MemConn) ResetByPeer(err error) {
+	if err == nil {
+		err = ErrInjected
+	}
+	c.mu.Lock()
+	c.resetErr = err
 	close(c.gate)
 	c.gate = make(chan struct{})
 	c.mu.Unlock()
